@@ -158,3 +158,13 @@ Proof.
   intros Hfw Hlen. apply detect_total_if_walk_total. unfold is_fst.
   apply fst_walk_forward; try assumption; lia.
 Qed.
+
+(* ---------- a file with a legal GHW header is classified as GHW ---------- *)
+
+Theorem detect_ghw debug (v e w o : N) rest : v <= 1 -> (e = 1 \/ e = 2) ->
+  detect debug (ghw_header_start ++ [16; 0; v; e; w; o; 0] ++ rest) = DFormat FGhw.
+Proof.
+  intros Hv He.
+  assert (Hv' : v = 0 \/ v = 1) by lia.
+  destruct Hv' as [-> | ->]; destruct He as [-> | ->]; reflexivity.
+Qed.
